@@ -92,6 +92,12 @@ def graph_family():
     out.append([(A, P, b1), (b1, FIRST, b2), (b1, REST, NIL), (b2, P, L("x"))])
     out.append([(A, P, b1), (b1, FIRST, b2), (b1, REST, NIL), (b2, FIRST, A), (b2, REST, NIL)])
     out.append([(A, P, b1), (A, Q, b2), (NIL, P, A)])
+    # container membership properties, several typed nodes
+    li = lambda n: ["I", RDFNS + "_%d" % n, None, None]  # noqa: E731
+    TYPE = ["I", RDFNS + "type", None, None]
+    out.append([(A, TYPE, ["I", RDFNS + "Seq", None, None]), (A, li(1), L("x")), (A, li(2), Bn), (A, li(3), L("y", lang="en"))])
+    out.append([(b1, li(1), A), (b1, li(2), A)])
+    out.append([(A, TYPE, I("T")), (A, TYPE, I("U")), (Bn, TYPE, I("T")), (b1, TYPE, I("T")), (A, P, b1), (b1, Q, Bn)])
     return out
 
 
